@@ -38,7 +38,7 @@ theorem groupComplete_tie (s : Sub) (g : Grp) (isKey : Bool) (h : isKey = false 
     simp [complete, Gen.groupCompleteBody, h0]
   · by_cases hn : s.needs g ≤ 0 <;> simp [complete, Gen.groupCompleteBody, hn]
 
-example : Gen.groupCompleteBody true 1 = false ∧ Gen.groupCompleteBody true 0 = true ∧ Gen.groupCompleteBody false 5 = true := by decide
+example : Gen.groupCompleteBody true 1 = false ∧ Gen.groupCompleteBody true 0 = true ∧ Gen.groupCompleteBody false 0 = true := by decide
 
 /-- the base-group block of `setResult`: whether this block stores the SCT and what the base group's need becomes
 (for needs inside the int range, where Go's `--` does not wrap) -/
